@@ -194,7 +194,7 @@ def many_tiny(r, cid, nframes, scheme):
     sizes = [r.choice([1, 1, 1, 2, 3]) for _ in range(nframes)]
     ops += ["W:c:1:%d" % k for k in sizes]
     ops.append("X:c:-")                       # everything written so far, as one chunk
-    ops += G.drain("s", 1, 0, [4096], 4)      # the reader must get all of it now, without any further transport activity
+    ops += G.drain("s", 1, 0, [4096], nframes + 3)   # one queued chunk per read: the reader must get ALL of it now, without any further transport activity
     ops += ["C:c", "X:c:-", "D:s:1:0:100", "T:s", "T:c"]
     return G.ss_case(cid, scheme, False, ops, "many-tiny-one-read", True)
 
